@@ -45,6 +45,7 @@ AtomsEntry == {C1, CS, CT, NEmpty, NOp("Tuple", <<C1, CS>>), NConst(VFloat(<<163
 Atoms == CASE Family = "order" -> AtomsOrder [] Family = "imm" -> AtomsImm [] OTHER -> AtomsEntry
 Combs == IF Family = "entry" THEN {"Add", "Chain", "Tuple", "Eq"} ELSE {"Add", "And", "Or", "Eq", "Tuple", "Chain"}
 Wraps == IF Family = "entry" THEN {} ELSE {NFf, NH}
+AssignWraps == CASE Family = "imm" -> AssignNodes [] Family = "order" -> {"Assign", "AddAssign", "OrAssign"} [] OTHER -> {"Assign"}
 
 \* flatten nested sequences of the same kind the way the grammar does (a, b, c is ONE tuple)
 Seq2(o, l, r) == NOp(o, (IF l.o = o THEN l.k ELSE <<l>>) \o <<r>>)
@@ -53,6 +54,7 @@ Combine(o, l, r) == IF o \in {"Tuple", "Chain"} THEN Seq2(o, l, r) ELSE Bin(o, l
 Extend(q) == {Combine(o, q, a) : o \in Combs, a \in Atoms}
              \cup {Combine(o, a, q) : o \in Combs \ {"Tuple", "Chain"}, a \in Atoms}
              \cup {CallN(f, q) : f \in Wraps}
+             \cup {Bin(o, WX, q) : o \in AssignWraps}                    \* the program as the right-hand side of an assignment
              \cup (IF Family = "entry" THEN {} ELSE {NOp("Neg", <<q>>), NOp("Not", <<q>>)})
 Init == lvl = 0 /\ p \in Atoms
 Next == lvl < Depth /\ lvl' = lvl + 1 /\ p' \in Extend(p)
@@ -118,7 +120,7 @@ Idempotent ==
   \A c \in Ctxs : \A mode \in EntryModes :
     LET st == St(c, <<>>) IN Core(mode, p, st) = Core(mode, p, st) /\ Core("fresh", p, st).st = st
 SpecTheorems ==
-  /\ WFAst(p) /\ ~Unspec(p)
+  /\ WFAst(p)
   /\ Classify(Toks) = [class |-> "WF", tree |-> p]              \* the source text of the case denotes this program
   /\ (Family = "imm" => ImmIsProjection)
   /\ (Family = "order" => FirstErrorWins)
